@@ -112,6 +112,13 @@ def handleScan (ds : DState) (sc : ScanCase) : DState × Json :=
     let hints := fun name => (sc.hints.lookup name).getD ⟨[], []⟩
     let r := runOnce rne64 o 0 ds.ctl st views hints sc.nowMock sc.nowReal
     let out := r.val
+    -- the context in which a group's observed journal is judged: the state, provider group (after this scan's refresh —
+    -- or rebuild — and after the groups before it) and view the model's own run started that group from
+    let ctxOf (c : GroupCfg) (stR : CState) : Option Spec.Ctx :=
+      match out.recs.find? (fun m => m.name == c.name) with
+      | some m => some { globalDry := ds.ctl.globalDry, cfg := m.cfg, st := m.pre, g := m.preG, view := m.view,
+                         nowMock := sc.nowMock, nowReal := sc.nowReal }
+      | none => ctxFor ds.ctl stR c sc
     -- compare
     let dOutcome := if outcomeStr out.outcome == sc.obs.outcome then [] else ["outcome"]
     let dPre := if out.pre == sc.obs.pre then [] else ["pre"]
@@ -141,7 +148,7 @@ def handleScan (ds : DState) (sc : ScanCase) : DState × Json :=
         | some c =>
           -- provider state: after refresh, plus earlier groups' effects (groups have distinct cloud groups)
           let stR : CState := { st with prov := match (refresh o 0 st.prov).val with | some p => p | none => st.prov }
-          match ctxFor ds.ctl stR c sc with
+          match ctxOf c stR with
           | none => []
           | some ctx =>
             let fatalHere := sc.obs.outcome != "ok" && (sc.obs.recs.getLast?.map (·.name)) == some ob.name
@@ -171,7 +178,7 @@ def handleScan (ds : DState) (sc : ScanCase) : DState × Json :=
       | none => []
       | some c =>
         let stR : CState := { st with prov := match (refresh o 0 st.prov).val with | some p => p | none => st.prov }
-        match ctxFor ds.ctl stR c sc with
+        match ctxOf c stR with
         | none => []
         | some ctx =>
           let mine := (paired.filter (fun t => t.1 == c.name)).map (fun t => t.2)
